@@ -1026,6 +1026,40 @@ def option_hygiene(model: Model, fc: FnCls, R: RuleResult) -> int:
     return n
 
 
+def ac12_saved_output_identity(fc: FnCls, R: RuleResult) -> int:
+    """A tensor that forward *creates* and saves for backward must be returned as that very object.  forward runs without a graph,
+    so a saved tensor that is not an output is a constant for the backward-of-backward: returning a copy / view / converted version
+    of it (`x.contiguous()`, `x.clone()`, `x.to(..)`) while saving the original silently drops every second-order term that goes
+    through the solution."""
+    fw = fc.forward
+    params = set(fw.params()) | ({fw.vararg()} if fw.vararg() else set())
+    saved = []
+    for c in own_nodes(fw.node):
+        if isinstance(c, ast.Call) and ast.unparse(c.func).endswith("save_for_backward"):
+            saved += [a.id for a in c.args if isinstance(a, ast.Name) and a.id not in params]
+    saved = sorted(set(saved))
+    rets = [r for r in own_nodes(fw.node) if isinstance(r, ast.Return) and r.value is not None]
+    n = 0
+    for nm in saved:
+        n += 1
+        bad = None
+        for r in rets:
+            elts = r.value.elts if isinstance(r.value, ast.Tuple) else [r.value]
+            bare = any(isinstance(e, ast.Name) and e.id == nm for e in elts)
+            derived = [e for e in elts if not isinstance(e, ast.Name) and any(isinstance(x, ast.Name) and x.id == nm for x in ast.walk(e))]
+            if derived or not bare:
+                bad = (r, derived)
+        if bad is None:
+            R.ok(fw.fq, "saved tensor `%s` is returned as the same object on every exit" % nm)
+        else:
+            r, derived = bad
+            R.bad(fw, r, "forward saves `%s` for backward but returns %s: the saved tensor is not the node's output, so a recorded backward "
+                  "treats it as a constant and second-order gradients through it are lost" % (nm, ("`%s`" % ast.unparse(derived[0])) if derived else "something else"))
+    if not saved:
+        R.ok(fw.fq, "forward saves only its inputs (no tensor it created): nothing to identify with the output")
+    return n
+
+
 def hygiene_rules(model: Model, fc: FnCls, prop: str, min_copies: int = 1, min_opt: int = 2, min_conv: int = 0, min_idx: int = 0) -> List[RuleResult]:
     R9 = RuleResult(prop, "AC9", "differentiable copies in backward stay connected to the graph (clone, not detach) when the backward is recorded", min_instances=min_copies)
     RO = RuleResult(prop, "OPT", "backward options: set_default_option(forward options, bck_options); caller's dict never mutated", min_instances=min_opt)
@@ -1044,6 +1078,9 @@ def hygiene_rules(model: Model, fc: FnCls, prop: str, min_copies: int = 1, min_o
     ac11_wrapper_returns(model, fc, R11)
     ac11_forward_provenance(model, fc, R11)
     out.append(R11)
+    R12 = RuleResult(prop, "AC12", "a tensor created and saved by forward is returned as that very object (it must be the node's output to stay differentiable in a recorded backward)", min_instances=1)
+    ac12_saved_output_identity(fc, R12)
+    out.append(R12)
     if "TensorNonTensorSeparator" in ast.unparse(fc.forward.node):
         SEP = RuleResult(prop, "AC-SEP", "TensorNonTensorSeparator.reconstruct_params scatters both groups back to their recorded positions (inverse of the split)", min_instances=4)
         separator_inverse(model, SEP)
